@@ -98,6 +98,15 @@ def roots(tier, seed):
                                     continue
                                 A = alpha.base_case(n, pats, where, obj, cons, options=dict(cap))
                                 pair("fixed-vs-reduced", A, reduce_case(A, list(fixed)))
+                                if freepat == "wide":
+                                    # the same with scaling in both members, and against the problem that is
+                                    # reduced *and* rescaled by hand
+                                    As = alpha.base_case(n, pats, where, obj, cons, options=dict(cap, scale=True))
+                                    Bs = reduce_case(As, list(fixed))
+                                    pair("fixed-vs-reduced:scaled", As, Bs)
+                                    Br = rescale_case(Bs)
+                                    Br["xmap"] = {"kind": "chain", "maps": [Br["xmap"], Bs["xmap"]]}
+                                    pair("fixed+scale-vs-reduced+rescaled", As, Br)
             for n in (1, 2):
                 pats = ("wide",) * n
                 for cons in ["none", "lin_le", "ball_le", "lin+nl"]:
@@ -259,7 +268,7 @@ def run_case(root):
 
 def coverage(agg, tier, roots_):
     s = agg.stats
-    kinds = ["fixed-vs-reduced", "bounds-forms", "scale-vs-rescaled", "dict-vs-nlc", "two-sided-vs-split:linear",
+    kinds = ["fixed-vs-reduced", "fixed-vs-reduced:scaled", "fixed+scale-vs-reduced+rescaled", "bounds-forms", "scale-vs-rescaled", "dict-vs-nlc", "two-sided-vs-split:linear",
              "two-sided-vs-split:nonlinear", "regroup:linear", "regroup:nonlinear", "nan-vs-inf-limits"]
     herr = [f"no pair of kind {k}" for k in kinds if not s.get("pair_" + k)]
     if not s.get("residual_points"):
